@@ -904,6 +904,12 @@ func genText() *rapid.Generator[string] {
 	)
 }
 
+// collection display names and descriptions travel as XML character data only (no iCalendar/vCard layer), so they
+// may also hold carriage returns, which XML can carry only as character references
+func genCollText() *rapid.Generator[string] {
+	return rapid.OneOf(genText(), genText(), rapid.SampledFrom([]string{"a\rb", "line1\r\nline2", "\r", "trail\r"}))
+}
+
 func genSeg(rt *rapid.T, label, suffix string) string {
 	return rapid.SampledFrom([]string{"a", "work", "a b", "é", "x%20y", "q?#", "d+;e", `"'<&>`, "%41", "100%"}).Draw(rt, label) + suffix
 }
@@ -980,7 +986,7 @@ func genColls(rt *rapid.T, cal bool, minColl int) []Coll {
 	n := rapid.IntRange(minColl, 3).Draw(rt, "ncolls")
 	var l []Coll
 	for i := 0; i < n; i++ {
-		c := Coll{Name: fmt.Sprintf("%s%d", genSeg(rt, "cname", ""), i), Display: genText().Draw(rt, "display"), Desc: genText().Draw(rt, "desc")}
+		c := Coll{Name: fmt.Sprintf("%s%d", genSeg(rt, "cname", ""), i), Display: genCollText().Draw(rt, "display"), Desc: genCollText().Draw(rt, "desc")}
 		if rapid.Bool().Draw(rt, "hasmax") {
 			c.Max = rapid.Int64Range(1, 1<<40).Draw(rt, "max")
 		}
